@@ -395,6 +395,78 @@ def rcrit_scalar(ctx, shape="needle"):
     ctx.prove("aspect ratio <= 1: the spherical critical radius", ctx.implies(a <= 1, ctx.eq(r, Rc)) if shape != "cubic" else True)
 
 
+def ecc(ctx, shape="needle"):
+    """eccentricity of the spheroid over the whole supported range: ecc^2 = 1 - 1/ar^2 (= 1 - short^2/long^2 of the semi-axes),
+    0 <= ecc < 1, increasing with the aspect ratio; and the public factor methods evaluate their formulas with exactly that value"""
+    d = DESC[shape]()
+    a = ctx.real("ar", (1.0, 100.0)); b = ctx.real("br", (1.0, 100.0))
+    ctx.assume(a > 1); ctx.assume(a < b); ctx.assume(b <= 100)
+    ea = d.eccentricity(a); eb = d.eccentricity(b)
+    _obs(ctx, "ecc_a", ea); _obs(ctx, "ecc_b", eb)
+    for (x, e) in ((a, ea), (b, eb)):
+        ctx.prove("eccentricity squared = 1 - 1/ar^2 on the whole range (1, 100]", ctx.eq(e * e * x * x, x * x - 1))
+        ctx.prove("0 < eccentricity < 1", ctx.all([ctx.lt(0.0 * x, e), ctx.lt(e, 1.0 + 0.0 * x)]))
+    ctx.prove("eccentricity increases with the aspect ratio", ctx.lt(ea, eb))
+    # the semi-axes of the unit-volume spheroid give the same eccentricity
+    r = d.normalRadii(b)
+    lo, hi = (r[0], r[2]) if shape == "needle" else (r[2], r[0])
+    ctx.prove("eccentricity squared = 1 - (short/long)^2 of the semi-axes", ctx.eq(eb * eb * hi * hi, hi * hi - lo * lo))
+    ev = d.eccentricity(np.array([a, b]))
+    ctx.prove("array call of eccentricity agrees with the scalar calls", ctx.all([ctx.eq(ev[0], ea), ctx.eq(ev[1], eb)]))
+    # what the factor methods use: the real eccentricity() is observed while the public methods run
+    seen = []
+    real_ecc = d.eccentricity
+
+    def spy(ar):
+        e = real_ecc(ar)
+        seen.append((ar, e))
+        return e
+    d.eccentricity = spy
+    for fn in ("kineticFactor", "thermoFactor"):
+        del seen[:]
+        getattr(d, fn)(b)
+        ctx.prove(fn + " evaluates the eccentricity once, for the aspect ratio handed in", len(seen) == 1 and np.shape(seen[0][0]) == (1,))
+        if len(seen) == 1 and np.shape(seen[0][0]) == (1,):
+            x, e = seen[0][0][0], seen[0][1][0]
+            ctx.prove(fn + " uses the aspect ratio handed in", ctx.eq(x, b, rtol=0.0))
+            ctx.prove(fn + " is evaluated with ecc^2 = 1 - 1/ar^2", ctx.eq(e * e * x * x, x * x - 1))
+
+
+def geometry(ctx, shape="needle", fn="kineticFactor"):
+    """needle / plate: thermodynamic factor = spheroid surface area / area of the equal-volume sphere, kinetic factor = spheroid
+    capacitance / radius of the equal-volume sphere, written with the semi-axes (short a, long c) that normalRadii returns for unit
+    volume, the sphere radius r = cbrt(3/(4 pi)) and the eccentricity e = sqrt(1 - a^2/c^2) = sqrt(1 - 1/ar^2):
+      prolate:  S = 2 pi a^2 (1 + c/(a e) asin e)                 C = 2 c e / (ln(1+e) - ln(1-e))
+      oblate :  S = 2 pi c^2 + pi a^2/e (ln((1+e)/(1-e)))         C = c e / asin e        (here c = long, a = short)
+    log / asin are uninterpreted, so the claim is that the code's expression is this expression of the same e (and of a, c, r)."""
+    d = DESC[shape]()
+    x = ctx.real("ar", (1.0, 100.0))
+    ctx.assume(x > 1); ctx.assume(x <= 100)
+    f = getattr(d, fn)(x)
+    _obs(ctx, "factor", f)
+    rad = d.normalRadii(x)
+    short, long_ = (rad[0], rad[2]) if shape == "needle" else (rad[2], rad[0])
+    r = float(np.cbrt(3 / (4 * PI)))
+    xc = _clamp(ctx, x)                           # = x on the assumed range; the term the code itself forms
+    e = np.sqrt(1 - 1 / xc**2)
+    A, C = short / r, long_ / r                  # semi-axes in units of the sphere radius
+    close = lambda u, v: ctx.eq(u, v)
+    if shape == "needle" and fn == "kineticFactor":
+        ctx.prove("needle kinetic factor = capacitance of the prolate spheroid / sphere radius", close(f * (np.log(1 + e) - np.log(1 - e)), 2 * C * e))
+    elif shape == "needle":
+        ctx.prove("needle thermodynamic factor = area of the prolate spheroid / sphere area", close(2 * f * e, A * A * e + A * C * np.arcsin(e)))
+    elif fn == "kineticFactor":
+        # asin e is written pi/2 - acos e (= acos(short/long)), with the double pi/2 as in the code: the solver's asin + acos = pi/2 uses
+        # the decimal expansion of pi, one unit in the 16th digit away
+        ctx.prove("plate kinetic factor = capacitance of the oblate spheroid / sphere radius", close(f * (np.pi / 2 - np.arccos(e)), C * e))
+    else:
+        if ctx.mode == "symbolic":
+            # ground instance of a law of the real power function that the solver's uninterpreted pow lacks: ar^(4/3) = (ar^(1/3))^4
+            c3 = np.cbrt(xc)
+            ctx.assume(ctx.eq(xc ** (4 / 3), c3 * c3 * c3 * c3), "pow(ar, 4/3) = cbrt(ar)^4")
+        ctx.prove("plate thermodynamic factor = area of the oblate spheroid / sphere area", close(4 * f * e, 2 * C * C * e + A * A * np.log((1 + e) / (1 - e))))
+
+
 SEQS = {
     # name: (initial shape, steps); a step is (method name or "description", argument kind)
     "description_setter": ("needle", [("description", "plate")]),
@@ -484,6 +556,14 @@ HARNESSES = [
     Harness("C15.unit", unit, functions=_FN, assumptions=_A,
             params={"quick": [{"shape": s, "fn": f} for s in ("sphere", "needle", "plate") for f in FACTORS],
                     "thorough": [{"shape": s, "fn": f} for s in ("sphere", "needle", "plate") for f in FACTORS]}),
+    Harness("C15.ecc", ecc, functions=_FN, assumptions=_A + ["1 < a < b <= 100"],
+            params={"quick": [{"shape": "needle"}, {"shape": "plate"}], "thorough": [{"shape": "needle"}, {"shape": "plate"}]}),
+    Harness("C15.geometry", geometry, functions=_FN, opts={"ob_timeout": 40.0},
+            assumptions=_A + ["1 < ar <= 100", "log and asin are uninterpreted: the factor is shown to be the closed-form area / capacitance expression of the spheroid's semi-axes and eccentricity, "
+                              "written with the difference of logarithms where the code writes one (the logarithm laws are not available to the solver); the numerical value of the "
+                              "expression against quadrature is outside"],
+            params={"quick": [{"shape": s, "fn": f} for s in ("needle", "plate") for f in ("kineticFactor", "thermoFactor")],
+                    "thorough": [{"shape": s, "fn": f} for s in ("needle", "plate") for f in ("kineticFactor", "thermoFactor")]}),
     Harness("C15.eqradius", eqradius, functions=_FN, assumptions=_A + ["1 <= a < b <= 100"],
             params={"quick": [{"shape": "needle"}, {"shape": "plate"}], "thorough": [{"shape": "needle"}, {"shape": "plate"}]}),
     Harness("C15.continuity", continuity, functions=_FN,
